@@ -201,8 +201,40 @@ impl World {
         sim::sleep(&self.core, ms * 1_000_000).await
     }
 
+    /// Run `main` while the side script `during` ([{"at_ms":..,<step>}..]) is executed concurrently.
+    async fn with_side<T>(&mut self, main: impl std::future::Future<Output = T>, during: &Value) -> T {
+        let side_steps: Vec<Value> = during.as_array().cloned().unwrap_or_default();
+        let core = self.core.clone();
+        let mut main = std::pin::pin!(main);
+        let mut side = std::pin::pin!(async {
+            let t0 = core.now_ns();
+            for st in side_steps.iter() {
+                let at = st["at_ms"].as_i64().unwrap_or(0) * 1_000_000;
+                let wait = t0 + at - core.now_ns();
+                if wait > 0 {
+                    sim::sleep(&core, wait).await;
+                }
+                self.exec(st).await;
+            }
+        });
+        let mut side_done = false;
+        std::future::poll_fn(|cx| {
+            if !side_done {
+                if side.as_mut().poll(cx).is_ready() {
+                    side_done = true;
+                }
+            }
+            main.as_mut().poll(cx)
+        })
+        .await
+    }
+
     /// Execute one scenario step; every API call is logged with its result.
-    pub async fn exec(&mut self, st: &Value) {
+    pub fn exec<'a>(&'a mut self, st: &'a Value) -> std::pin::Pin<Box<dyn std::future::Future<Output = ()> + 'a>> {
+        Box::pin(self.exec_inner(st))
+    }
+
+    async fn exec_inner(&mut self, st: &Value) {
         let core = self.core.clone();
         match st["do"].as_str().unwrap_or("") {
             "participant" => {
@@ -284,21 +316,25 @@ impl World {
                 wc.next_seq += 1;
                 let d = KeyedData { id, w: wi as u8, seq, data: payload(wi as u8, seq, len) };
                 let ts = st["ts_ms"].as_i64().map(|ms| {
-                    let ns = sim::START_SEC * NS + ms * 1_000_000;
+                    let ns = core.lock().epoch_ns + ms * 1_000_000;
                     sim::time_of(ns)
                 });
-                let t0 = core.now_ns() - sim::START_SEC * NS;
+                let t0 = core.now_ns() - core.lock().epoch_ns;
                 core.log(json!({"ev": "WriteCall", "w": wi, "i": id, "seq": seq, "len": len, "kind": kind, "ts_ms": st["ts_ms"]}));
                 let w = wc.w.clone();
-                let res = match (kind, ts) {
-                    ("write", None) => w.write(d, None).await,
-                    ("write", Some(t)) => w.write_w_timestamp(d, None, t).await,
-                    ("dispose", None) => w.dispose(d, None).await,
-                    ("dispose", Some(t)) => w.dispose_w_timestamp(d, None, t).await,
-                    ("unregister", None) => w.unregister_instance(d, None).await,
-                    (_, Some(t)) => w.unregister_instance_w_timestamp(d, None, t).await,
-                    _ => unreachable!(),
+                let kind_s = kind.to_string();
+                let op = async move {
+                    match (kind_s.as_str(), ts) {
+                        ("write", None) => w.write(d, None).await,
+                        ("write", Some(t)) => w.write_w_timestamp(d, None, t).await,
+                        ("dispose", None) => w.dispose(d, None).await,
+                        ("dispose", Some(t)) => w.dispose_w_timestamp(d, None, t).await,
+                        ("unregister", None) => w.unregister_instance(d, None).await,
+                        (_, Some(t)) => w.unregister_instance_w_timestamp(d, None, t).await,
+                        _ => unreachable!(),
+                    }
                 };
+                let res = if st["during"].is_array() { self.with_side(op, &st["during"]).await } else { op.await };
                 core.log(json!({"ev": "WriteRet", "w": wi, "i": id, "seq": seq, "len": len, "kind": kind, "res": res_name(&res), "t0": t0}));
             }
             "take" | "read" => {
@@ -320,8 +356,9 @@ impl World {
                                 InstanceStateKind::NotAliveDisposed => "DISPOSED",
                                 InstanceStateKind::NotAliveNoWriters => "NO_WRITERS",
                             };
+                            let epoch = core.lock().epoch_ns;
                             let ts = si.source_timestamp.map(|t: Time| {
-                                (t.sec() as i64 - sim::START_SEC) * NS + t.nanosec() as i64
+                                t.sec() as i64 * NS + t.nanosec() as i64 - epoch
                             });
                             match &s.data {
                                 Some(d) => json!({"w": d.w, "seq": d.seq, "i": d.id, "len": d.data.len(),
@@ -343,12 +380,14 @@ impl World {
                 let w = self.writers[wi].as_ref().unwrap().w.clone();
                 core.log(json!({"ev": "WaitAcksCall", "w": wi, "ms": ms}));
                 let t0 = core.now_ns();
-                let r = sim::with_timeout(&core, ms * 1_000_000, w.wait_for_acknowledgments()).await;
+                let core2 = core.clone();
+                let op = async move { sim::with_timeout(&core2, ms * 1_000_000, w.wait_for_acknowledgments()).await };
+                let r = if st["during"].is_array() { self.with_side(op, &st["during"]).await } else { op.await };
                 let res = match r {
                     Some(r) => res_name(&r),
                     None => "Timeout".to_string(),
                 };
-                core.log(json!({"ev": "WaitAcksRet", "w": wi, "res": res, "dt": core.now_ns() - t0}));
+                core.log(json!({"ev": "WaitAcksRet", "w": wi, "res": res, "dt": core.now_ns() - t0, "must": st["expect_ok"]}));
             }
             "wait_hist" => {
                 let ri = st["r"].as_u64().unwrap_or(0) as usize;
@@ -361,7 +400,7 @@ impl World {
                     Some(r) => res_name(&r),
                     None => "Timeout".to_string(),
                 };
-                core.log(json!({"ev": "WaitHistRet", "r": ri, "res": res, "dt": core.now_ns() - t0}));
+                core.log(json!({"ev": "WaitHistRet", "r": ri, "res": res, "dt": core.now_ns() - t0, "must": st["expect_ok"]}));
             }
             "sleep" => {
                 let ms = st["ms"].as_i64().unwrap_or(1);
@@ -402,8 +441,12 @@ impl World {
                 // block traffic from part a to part b (one direction)
                 let a = self.parts[st["from_part"].as_u64().unwrap() as usize].index;
                 let b = self.parts[st["to_part"].as_u64().unwrap() as usize].index;
-                core.lock().blocked.push((a, b));
-                core.log(json!({"ev": "Partition", "from": a, "to": b}));
+                if st["user_only"].as_bool().unwrap_or(false) {
+                    core.lock().blocked_user.push((a, b));
+                } else {
+                    core.lock().blocked.push((a, b));
+                }
+                core.log(json!({"ev": "Partition", "from": a, "to": b, "user_only": st["user_only"]}));
             }
             "heal" => {
                 {
@@ -412,9 +455,14 @@ impl World {
                     c.meta_faults = FaultMode::default();
                     c.rules.clear();
                     c.blocked.clear();
+                    c.blocked_user.clear();
                     c.hold_user = false;
                 }
                 core.log(json!({"ev": "Heal"}));
+            }
+            "heal_meta_only" => {
+                // nothing to do for metatraffic (it is never faulted unless a scenario says so)
+                core.log(json!({"ev": "Tick"}));
             }
             "hold" => {
                 core.lock().hold_user = st["on"].as_bool().unwrap_or(true);
@@ -424,6 +472,9 @@ impl World {
                 let ms = st["ms"].as_i64().unwrap_or(3000);
                 self.sleep_ms(ms).await;
                 core.log(json!({"ev": "Quiesce", "ms": ms}));
+            }
+            "final" => {
+                core.log(json!({"ev": "Final"}));
             }
             "delete_participant" => {
                 let k = st["part"].as_u64().unwrap() as usize;
@@ -469,6 +520,7 @@ impl World {
             c.meta_faults = FaultMode::default();
             c.rules.clear();
             c.blocked.clear();
+            c.blocked_user.clear();
             c.hold_user = false;
         }
         for pc in self.parts.drain(..) {
@@ -492,6 +544,7 @@ pub fn run_scenario(sc: &Value) -> (Vec<Value>, Option<String>) {
         c.log.clear();
         c.log_meta = sc["log_meta"].as_bool().unwrap_or(false);
         c.zero_delay_run = 0;
+        c.epoch_ns = c.now_ns;
     }
     g.sim.core.log(json!({"ev": "Reset", "name": sc["name"], "seed": sc["seed"], "frag": sc["frag"], "cfg": sc["cfg"]}));
     let domain = sc["domain"].as_i64().unwrap_or(0) as i32;
